@@ -36,10 +36,10 @@ CLAIMED = {
                 text="For write_all/write_all_vectored/send_all/send_all_vectored (plain, extract, positional, flags, zero-copy) over every buffer shape with 1-3 (thorough 1-4, plus 5 and 8) buffers of length 0-2 (0-3) incl. empty buffers in every position, and for read_n/read_n_vectored/recv_n/recv_n_vectored over Vec, pre-filled Vec, LimitedBuf and pool ReadBuf targets and every n: every sequence of accepted/delivered counts the kernel may answer is executed; each request must offer exactly the bytes not yet written at the right offset with the caller's flags and opcode, success only after everything, WriteZero/UnexpectedEof exactly when the kernel answers 0.",
                 ref="6/C10"),
     "C11": dict(technique=SCH + "; oracle: a poller blocked in the kernel forever after a completed wake() = lost wake-up",
-                text="Poller thread (poll(None), poll(0);poll(None), poll(None);poll(None), with or without completions already published) and 1-2 waker threads on default, kernel-thread, single-issuer and defer-taskrun rings, all schedules up to the preemption bound including the sq-thread going idle; wake() after the Ring is dropped.",
+                text="Poller thread (poll(None), poll(0);poll(None), poll(None);poll(None), with or without completions already published) and 1-2 waker threads on default, kernel-thread, single-issuer and defer-taskrun rings, all schedules up to the preemption bound including the sq-thread going idle; wake() after the Ring is dropped, and wake() racing with the Ring being dropped on another thread.",
                 ref="6/C11", engine="schx"),
-    "C12": dict(technique="explicit-state exploration of every drop order of the objects of each scenario on the real code (seqx); oracles: mmap/munmap/close interposer, simulated kernel descriptor table, tracking allocator",
-                text="~140 scenarios (queue sizes 8, 2 and 1; operations not started / queued / in flight / abandoned / finished-unpolled / mid-stream, queue clone, regular and direct AsyncFd, pool, owned and unassigned ReadBuf; kernel cancelling everything, failing to cancel, cancelling nothing) x every permutation of dropping those objects that safe Rust admits; checked: no panic/crash, no use of freed memory, the three ring mappings unmapped exactly once with their original lengths before the ring fd is closed, queued clean-up requests submitted, every descriptor closed once, no allocation left.",
+    "C12": dict(engine="seqx+schx", technique="explicit-state exploration of every drop order of the objects of each scenario on the real code (seqx) plus " + SCH + " with the Ring dropped on its own thread; oracles: mmap/munmap/close interposer, simulated kernel descriptor table, tracking allocator",
+                text="~140 scenarios (queue sizes 8, 2 and 1; operations not started / queued / in flight / abandoned / finished-unpolled / mid-stream, queue clone, regular and direct AsyncFd, pool, owned and unassigned ReadBuf; kernel cancelling everything, failing to cancel, cancelling nothing) x every permutation of dropping those objects that safe Rust admits; checked: no panic/crash, no use of freed memory, the three ring mappings unmapped exactly once with their original lengths before the ring fd is closed, queued clean-up requests submitted, every descriptor closed once, no allocation left. Threads: the Ring is dropped on its own thread while other threads drop a regular / direct AsyncFd, release a ReadBuf, drop the pool, call wake(), drop a queue clone, poll a fresh operation for the first time, or drop a queued / in-flight operation (default and kernel-thread rings, the sq-thread as an actor that may lag arbitrarily), every schedule up to the preemption bound, same oracles.",
                 ref="6/C12"),
     "C13": dict(technique="bounded exhaustive enumeration: submissions decoded by a simulated kernel compared with an io_uring ABI table and regular-vs-direct differential, plus differential execution against the real kernel with libc as oracle (casex)",
                 text="Part A (simulated kernel): 43 operation shapes, the second submission of every composite operation after a short first result (flags, zero-copy, advanced offsets), builder settings of splice, send_to, recv_from_vectored, multishot_recv, pipe, the statx mask and waitid options; each issued on a regular and on a direct descriptor; every field of the two submissions must agree except the descriptor field/flag, and must equal an independent ABI table; builder settings made before the first poll (offsets incl. 2^40 and 2^64-2, every send/recv flag, open options x mode x kind, advice, allocate mode, truncate length, shutdown mode ...) must be reflected. Part B (real kernel): 24 scenario families x {regular, direct} (read/write/vectored at every offset x length, open options, path operations, statx with every Metadata accessor on every descriptor type, truncate/allocate modes/advise/madvise/fsync, pool reads, TCP/UDP/Unix sockets with names, every socket option type, recv flags and the composite read_n/recv_n/write_all/send_all families against slow peers, multishot accept/recv/read, pipes, splice, waitid with every WaitInfo accessor, limited buffers, the sync_* helpers, process signals through Signals, descriptor conversions): the a10 call on a real ring and the libc call on an identical fixture are compared on result, failure, bytes at offsets, file position, stat fields, addresses and option values.",
